@@ -1,10 +1,11 @@
 #!/bin/sh
 # re-run every kept seeded change against its check(s) (quick tier); prints the ones that are no longer caught
-# usage: tools/regress_seeded.sh [jobs]
+# usage: tools/regress_seeded.sh [jobs] [seed]
 cd "$(dirname "$0")/.."
 jobs=${1:-6}
+seedarg=""; [ -n "$2" ] && seedarg="--seed $2"
 out=$(mktemp -d /tmp/regress-seeded.XXXXXX)
-ls seeded | grep '^S-' | xargs -P "$jobs" -I{} sh -c "python3 tools/seeded.py check {} > $out/{}.log 2>&1"
+ls seeded | grep '^S-' | xargs -P "$jobs" -I{} sh -c "python3 tools/seeded.py check {} $seedarg > $out/{}.log 2>&1"
 missed=0
 for f in "$out"/*.log; do
   if ! tail -1 "$f" | grep -q caught || tail -1 "$f" | grep -q MISSED; then echo "NOT CAUGHT: $(tail -1 "$f" | cut -c1-300)"; missed=$((missed+1)); fi
